@@ -247,12 +247,16 @@ class SysRun(object):
             unix = sv.get("family") == "unix"
             addr = "/sim/sock" if unix else ("sim", 0)
             fam = socket.AF_UNIX if unix else socket.AF_INET
-            handler = js.SimpleJSONRPCRequestHandler
+            class Quiet(js.SimpleJSONRPCRequestHandler):
+                def log_message(self, format, *args):
+                    pass  # http.server writes protocol errors to stderr: keep the check's output clean
+
+            handler = Quiet
             cd = sv.get("custom_dispatch")
             if cd in ("server", "direct", True):
                 run = self
 
-                class Handler(js.SimpleJSONRPCRequestHandler):
+                class Handler(Quiet):
                     def _dispatch(self, method, params):
                         if cd == "direct":
                             return run.direct_dispatch(method, params)
